@@ -460,6 +460,58 @@ func main() {
 	}
 	b.WriteString("]\n\n")
 
+	// every return statement between Snapshot() and the revert block, and after the revert block:
+	// a path that leaves an entry point after its snapshot without passing the revert block shows up here
+	b.WriteString("def returnPaths : List (String × List String) := [\n")
+	for i, name := range fe {
+		f := vm[name]
+		var snapPos, revPos, revEnd token.Pos
+		ast.Inspect(f.decl.Body, func(n ast.Node) bool {
+			switch t := n.(type) {
+			case *ast.CallExpr:
+				if strings.HasSuffix(selPath(t.Fun), ".Snapshot") && snapPos == 0 {
+					snapPos = t.Pos()
+				}
+			case *ast.IfStmt:
+				has := false
+				ast.Inspect(t.Body, func(m ast.Node) bool {
+					if ce, ok := m.(*ast.CallExpr); ok && strings.HasSuffix(selPath(ce.Fun), ".RevertToSnapshot") {
+						has = true
+					}
+					return true
+				})
+				if has && revPos == 0 {
+					revPos, revEnd = t.Pos(), t.End()
+				}
+			}
+			return true
+		})
+		if snapPos == 0 || revPos == 0 {
+			fail("no Snapshot()/revert block in " + name)
+		}
+		var items []string
+		ast.Inspect(f.decl.Body, func(n ast.Node) bool {
+			r, ok := n.(*ast.ReturnStmt)
+			if !ok || r.Pos() < snapPos {
+				return true
+			}
+			where := "after-revert-block"
+			if r.Pos() < revPos {
+				where = "before-revert-block"
+			} else if r.Pos() < revEnd {
+				where = "inside-revert-block"
+			}
+			items = append(items, where+": "+src(r)+" ["+strings.Join(enclosingConds(f.decl.Body, r), " && ")+"]")
+			return true
+		})
+		sep := ","
+		if i == len(fe)-1 {
+			sep = ""
+		}
+		fmt.Fprintf(&b, "  (%s, %s)%s\n", leanStr(strings.TrimPrefix(name, "EVM.")), leanList(items), sep)
+	}
+	b.WriteString("]\n\n")
+
 	// create's revert condition separately (also inside frameSeq)
 	createCond := ""
 	ast.Inspect(vm["EVM.create"].decl.Body, func(n ast.Node) bool {
